@@ -13,6 +13,7 @@ type gmod struct {
 	id    string
 	esm   bool
 	style string // cjs export style: "exports", "fn", "esmodule"
+	noX   bool   // ESM module without its own export "x" (export-star shadowing / ambiguity variants)
 }
 
 func (m gmod) file() string {
@@ -40,7 +41,11 @@ var gCJSEdgeKinds = []string{"require", "lazyreq", "dyn", "reqfn"}
 func (g *ggraph) String() string {
 	var p []string
 	for _, m := range g.mods {
-		p = append(p, m.file()+"("+m.style+")")
+		st := m.style
+		if m.noX {
+			st += ",no-x"
+		}
+		p = append(p, m.file()+"("+st+")")
 	}
 	var e []string
 	for _, x := range g.edges {
@@ -227,7 +232,11 @@ func (g *ggraph) render() map[string]string {
 		if m.esm {
 			src = append(src, imports...)
 			src = append(src, fmt.Sprintf("log('%s:start');", id))
-			src = append(src, fmt.Sprintf("export let x = '%s.x0'; export function setX(v) { x = v; } export function getX() { return x; }", id))
+			if m.noX {
+				src = append(src, fmt.Sprintf("export let y_%s = '%s.y0';", id, id))
+			} else {
+				src = append(src, fmt.Sprintf("export let x = '%s.x0'; export function setX(v) { x = v; } export function getX() { return x; }", id))
+			}
 			src = append(src, fmt.Sprintf("export default {x: '%s.defx', id: '%s'};", id, id))
 			src = append(src, fmt.Sprintf("export const only_%s = '%s.only';", id, id))
 		} else {
@@ -318,6 +327,39 @@ func enumGraphs(tier string, esmOnly bool) []*ggraph {
 						g2 := &ggraph{mods: append([]gmod{}, g.mods...), edges: g.edges, throwIn: -1}
 						g2.mods[last].style = st
 						out = append(out, g2)
+					}
+				}
+				// export-name-set variants: every non-empty subset of ESM modules loses its own "x", provided the
+				// graph has an export-star edge and no edge needs the removed binding by name
+				hasStar := false
+				for _, e := range g.edges {
+					if e.kind == "star" {
+						hasStar = true
+					}
+				}
+				if hasStar {
+					for sub := 1; sub < 1<<uint(sh.n); sub++ {
+						ok := true
+						for i := 0; i < sh.n; i++ {
+							if sub&(1<<uint(i)) != 0 && !g.mods[i].esm {
+								ok = false
+							}
+						}
+						for _, e := range g.edges {
+							if sub&(1<<uint(e.to)) != 0 && (e.kind == "named" || e.kind == "reexport") {
+								ok = false
+							}
+						}
+						if !ok {
+							continue
+						}
+						g4 := &ggraph{mods: append([]gmod{}, g.mods...), edges: g.edges, throwIn: -1}
+						for i := 0; i < sh.n; i++ {
+							if sub&(1<<uint(i)) != 0 {
+								g4.mods[i].noX = true
+							}
+						}
+						out = append(out, g4)
 					}
 				}
 				if idx%4 == 1 && sh.n > 1 {
